@@ -42,9 +42,10 @@ RULE = ("BFS over histories of go / run / arm(target) / hw(target) on a two-bloc
 LEVEL_TEXT = ("Every history up to the depth bound of guest and host writes into translated instructions, interleaved with partial and complete "
               "runs, is executed on the real jitter and compared with an interpreter that decodes each instruction from the current bytes.")
 LEVEL_NOTE = ("The LLVM backend is not exercised: llvmlite is absent from this image. Trusted: the small reference interpreter (cross-checked against "
-              "a fresh jitter on every patched image), miasm's assembler. Writes that change instruction lengths, multi-byte stores spanning two "
-              "instructions and a store into an *earlier* instruction of its own block are outside the alphabet; at most MAXTOG bytes differ from "
-              "the original image at any time.")
+              "a fresh jitter on every patched image), miasm's assembler. Host writes go through vm.set_mem only (from outside a run and from inside a "
+              "breakpoint callback); an explicit jit.updt_automod_code call by the host is not modelled. Writes that change instruction lengths, "
+              "multi-byte stores spanning two instructions and a store into an *earlier* instruction of its own block are outside the alphabet; at "
+              "most 1 (quick) / 2 (thorough) bytes differ from the original image at any time; a history is seed ; writes ; runs.")
 TECHNIQUE = "explicit-state BFS over write/run histories on the real jitter against a fetch-from-current-bytes reference interpreter"
 ASSUMPTIONS = ["general purpose registers (not flags) are the observable named by the property",
                "the Python backend's module-global simplifier passes are reset before each new jitter (one jitter per process in real use)"]
@@ -84,6 +85,7 @@ TARGETS = {
     "u2": ("U2", 0, 0x4E, "next-block:one-byte-instruction"),   # INC ESI -> DEC ESI
 }
 QUICK_TARGETS = ["t1f", "t1m", "t1l", "u1f", "u1m", "u1l", "jl"]
+GCC_QUICK_TARGETS = ["t1l", "u1f", "jl"]      # every distinct block content costs a C compilation
 CBW_QUICK = ["t1l", "u1f"]
 CBW_THOROUGH = ["t1f", "t1l", "u1f", "u1m", "u2"]
 ALL_TARGETS = QUICK_TARGETS + ["t2", "u2"]
@@ -251,6 +253,12 @@ def make(seed):
     return st
 
 
+def _targets(quick, backend):
+    if not quick:
+        return ALL_TARGETS
+    return GCC_QUICK_TARGETS if backend == "gcc" else QUICK_TARGETS
+
+
 def _toggled(st):
     p = P()
     return [t for t in ALL_TARGETS if st.ref.mem[p["addr"][t] - CODE] != p["code"][p["addr"][t] - CODE]]
@@ -260,7 +268,7 @@ def events(st):
     if st.broken:
         return []
     quick = _cfg["quick"]
-    targets = QUICK_TARGETS if quick else ALL_TARGETS
+    targets = _targets(quick, st.backend)
     maxtog = 1 if quick else 2
     tog = _toggled(st)
     evs = []
@@ -429,11 +437,11 @@ def _load():
     jitx.activate(["JitCore_x86"])
 
 
-def _images(quick):
+def _images(quick, backend="python"):
     """Code images with at most MAXTOG toggled target bytes."""
     import itertools
     p = P()
-    targets = QUICK_TARGETS if quick else ALL_TARGETS
+    targets = _targets(quick, backend)
     out = []
     for n in range(0, (1 if quick else 2) + 1):
         for combo in itertools.combinations(targets, n):
@@ -470,7 +478,7 @@ def _gcc_jobs(quick):
     jobs = {}
     configs = CONFIGS_QUICK if quick else CONFIGS_THOROUGH
     mls = sorted({ml for be, ml in configs if be == "gcc"})
-    for combo, img in _images(quick):
+    for combo, img in _images(quick, "gcc"):
         if 50 in mls:
             for start, end in ((CODE, p["top"]), (p["top"], p["nxt"]), (p["ins"]["T1"], p["nxt"]), (p["nxt"], offs[-1]), (p["ins"]["U2"], offs[-1]),
                                (offs[-1], None)):
@@ -500,15 +508,21 @@ def _run_check(ctx):
     bfs._SYS = sys.modules[__name__]        # the pool is forked by precompile(), before bfs.explore() sets it
     for sig, what in check_reference(ctx.quick):
         ctx.violation(sig, what, {"seed": 0, "hist": [], "tier": ctx.tier})
+    import time
+    t0 = time.time()
     compiled = jitx.precompile(ctx, _gcc_jobs(ctx.quick))
+    t1 = time.time()
     sd = seeds(ctx.quick)
     depth = 2 if ctx.quick else 3
     cov = bfs.explore(ctx, sys.modules[__name__], max_depth=depth, seeds=sd, chunk=2)
+    cov["seconds_precompile"] = round(t1 - t0, 1)
+    cov["seconds_explore"] = round(time.time() - t1, 1)
     for v in ctx.violations:
         v["case"]["tier"] = ctx.tier
     cov["gcc_blocks_precompiled"] = compiled
     cov["bounds"] = {"depth": depth, "seeds": len(sd), "configs": CONFIGS_QUICK if ctx.quick else CONFIGS_THOROUGH,
-                     "seed_histories": PRES, "targets": QUICK_TARGETS if ctx.quick else ALL_TARGETS,
+                     "seed_histories": PRES, "targets": {"python": _targets(ctx.quick, "python"), "gcc": _targets(ctx.quick, "gcc")},
+                     "callback_write_targets": CBW_QUICK if ctx.quick else CBW_THOROUGH,
                      "max_bytes_differing_from_original": 1 if ctx.quick else 2, "max_go_events": 4}
     return cov
 
